@@ -1,24 +1,29 @@
 #!/usr/bin/env python3
 """C13 — map, filter and reduce: standard higher-order semantics and scoping.
 
-  K1  collection handling, by kind of the *evaluated* collection (variant
-      specialisation over Evaluated::{New,Raw} × the six JSON kinds, 12 cases per
-      operator): Array → the per-element iteration runs over the array's
-      elements; Null → it runs over an empty vector; every other kind → the
-      iteration is unreachable and the function returns Err; identical in the
-      three operators (sibling agreement);
-  K2  evaluated once: the collection operand (and reduce's initial value) is
-      parsed and evaluated exactly once, against the outer data, outside the
-      per-element code; the expression operand is parsed once, outside it;
-  K3  scoping (R-PROV S2): the data handed to the per-element evaluation never
-      carries outer-data provenance; in map/filter it is the iteration element; in
-      reduce it is a map built in place with exactly two insertions under the
-      constant keys "current" and "accumulator";
-  K4  shape: map's result is collect(map(iter)) of the per-element results — no
-      filtering/reordering adaptor; filter pushes the iteration element itself,
-      only under the truthy edge of the shared truthiness function; reduce is a
-      left fold whose closure result is the next accumulator, seeded with the
-      evaluated initial value; no element of the collection is ever parsed (C04).
+  K1  collection handling, by kind of the *evaluated* collection (Evaluated::{New,Raw} × the six JSON kinds, 12 cases
+      per operator), read on the PATH SUMMARIES of the operator's function with the kind fixed (`known` hook of
+      rules/pathsum.py, on the Evaluated value or on its conversion to a plain Value): Array → the paths that reach the
+      iteration iterate over the Array payload; Null → over a vector built empty; every other kind → no path reaches the
+      iteration and every path returns Err; identical in the three operators (sibling agreement).  Nothing depends on
+      how the match is spelled; a decision hidden in a private helper is read on the helper-inlined view (inline-safe);
+      a receiver the reader cannot classify is UNDECIDED, an iteration reachable for an error kind is a violation;
+  K2  evaluated once: the collection operand (and reduce's initial value) is parsed and evaluated exactly once,
+      against the outer data, outside the per-element code; the expression operand is parsed once, outside it
+      (provenance of the evaluation sites of the operator's extended unit: function, closures, helper functions);
+  K3  scoping (R-PROV S2): the data handed to the per-element evaluation never carries outer-data provenance; in
+      map/filter it is the iteration element; in reduce it is a map built in place with exactly two insertions under
+      the constant keys "current" and "accumulator";
+  K4  shape: map's result is collect(map(iter)) of the per-element results — no filtering/reordering adaptor; filter
+      is read on the PER-ELEMENT OUTCOME TABLE (path summaries of one element's processing — closure handed to
+      fold / try_fold / filter_map / filter / for_each, or one iteration of a loop): every path KEEPs (push, Some(..),
+      true), DROPs, or ends in an ERROR; a KEEP path adds exactly one value, the element itself, and lies under
+      truthy(value of the expression) == true of the shared truthiness function, a DROP path under == false (read
+      from call-site atoms or from Option/Result combinator chains in case normal form); reduce is a left fold whose
+      closure result on every non-error path is the evaluated expression, seeded with the evaluated initial value;
+      no element of the collection is ever parsed (C04).
+  Per-element clauses are not read through a helper function that holds the per-element evaluation: they are
+  UNDECIDED on the program as written and decided on the view with the helper inlined at its call site.
 Not decided: results on nested expressions (value-level).
 """
 import re
@@ -28,6 +33,7 @@ from .roles import Roles
 from .opfacts import Unit
 from . import prov as P
 from . import table as T
+from . import pathsum, optnorm
 
 VALUE = "serde_json::Value"
 REORDER = re.compile(r"(Iterator::|Iterator>::)(rev|filter|filter_map|skip|take|step_by|skip_while|take_while|rfold|chain|zip|cycle|flat_map|flatten|dedup|peekable)$|::(sort\w*|reverse|dedup\w*|retain|truncate|swap_remove|remove|drain|split_off)$")
@@ -80,15 +86,38 @@ def adaptor_of(u, site):
     return None
 
 
-def collection_matrix(ctx, roles, u, coll_site, adaptor_bi, name, cfg):
-    """Outcome per (Evaluated variant, JSON kind) of the evaluated collection."""
+EMPTY_SRC = re.compile(r"Vec::<T>::new$|Vec::<T>::with_capacity$|^std::iter::empty$|Default>::default$")
+
+
+def _is_err_result(r):
+    r = strip_refs(r) if r is not None else None
+    return r is not None and ((r[0] == "agg" and r[1].get("variant") == "Err") or (r[0] == "call" and r[1] is not None and "from_residual" in r[1].get("path", "")))
+
+
+def collection_matrix2(roles, u, coll_site, adaptor_bi):
+    """K1 on path summaries.  For every (Evaluated variant, JSON kind) of the evaluated collection: the set of
+    outcomes of the paths of the operator's function on which the collection was evaluated successfully, with the
+    kind fixed (`known` hook of the path walker — the match may be spelled as nested patterns, guards, if-let chains,
+    on the Evaluated value or on its conversion to a plain Value):
+        ITER(elements) the path reaches the iteration and iterates over the Array payload of the collection
+        ITER(empty)    … over a vector built empty          ITER(?)  … over something the reader cannot classify
+        ERR            the path returns an error without reaching the iteration
+        OK(..)         the path returns successfully without reaching the iteration       ?  not readable (loop)
+    Returns {(ev, kind): (set of outcomes, opaque)}; opaque = a reaching/deciding path is conditioned on the result
+    of a local function applied to the collection (a helper whose decision the walker cannot see)."""
     root = u.root
     facts = roles.facts
     ev_adt = roles.evaluated_adt
-    # expression of the evaluated collection
+
     def is_coll(e):
         e = strip_payload(e)
-        return e[0] == "call" and e[3] == coll_site.bi and e[1].get("key") == roles.parsed_evaluate
+        return e[0] == "call" and e[3] == coll_site.bi and e[1] is not None and e[1].get("key") == roles.parsed_evaluate
+
+    def is_conv(x):
+        return x[0] == "call" and x[1] and x[2] and (x[1].get("key") == roles.conv.key or roles.conv.key in {y.get("key") for y in x[1].get("fwd") or []})
+
+    def mentions_coll(e):
+        return expr_mentions(e, lambda x: x[0] == "call" and x[1] is not None and x[1].get("key") == roles.parsed_evaluate and x[3] == coll_site.bi)
 
     res = {}
     for ev in facts.variants(ev_adt):
@@ -100,22 +129,51 @@ def collection_matrix(ctx, roles, u, coll_site, adaptor_bi, name, cfg):
                     x = strip_refs(e)
                     if x[0] == "field" and x[1][0] == "downcast" and x[1][2] == _ev and is_coll(x[1][1]):
                         return _v
+                    if is_conv(x) and is_coll(x[2][0]):       # Value::from(evaluated collection) is the same JSON value
+                        return _v
                 return None
-            restrict = P.specialise_unit(roles, root.key, assume)
-            blocks = restrict[root.key]
-            if adaptor_bi in blocks:
-                with root.restricted(blocks):
-                    recv = root.trace(root.blocks[adaptor_bi]["term"]["args"][0])
-                from_payload = expr_mentions(recv, lambda x: x[0] == "downcast" and x[2] == "Array")
-                empty = (expr_mentions(recv, lambda x: x[0] == "call" and x[1] and re.search(r"Vec::<T>::new$|Vec::<T>::with_capacity$|^std::iter::empty$|Default>::default$", x[1]["path"]) is not None)
-                         or expr_mentions(recv, lambda x: x[0] == "agg" and x[1].get("agg") == "Array" and not x[2])) and not from_payload      # Vec::new(), vec![], &[], iter::empty()
-                res[(ev, v)] = "ITER(elements)" if from_payload else ("ITER(empty)" if empty else "ITER(?)")
-            else:
-                with root.restricted(blocks):
-                    r = strip_refs(root.trace(0))
-                cands = r[2] if r[0] == "phi" else [r]
-                errs = [x for x in cands if strip_refs(x)[0] == "agg" and strip_refs(x)[1].get("variant") == "Err"]
-                res[(ev, v)] = "ERR" if errs and len(errs) == len([x for x in cands if not (strip_refs(x)[0] == "call" and "from_residual" in (strip_refs(x)[1] or {}).get("path", ""))]) else "OTHER(%s)" % show_expr(r)[:60]
+            w = pathsum.summarize(root, known=assume, max_paths=4000)
+            outs, opaque = set(), False
+            if w.overflow or not w.paths:
+                res[(ev, v)] = ({"?"}, False)
+                continue
+            for p in w.paths:
+                if coll_site.bi not in p.blocks:
+                    continue
+                failed = False
+                for key, val in p.order:
+                    if key[0] == "variant" and val in ("Err", "Break"):
+                        x = w.exprs.get(key)
+                        if x is not None and strip_refs(x)[0] == "call" and is_coll(x):
+                            failed = True
+                if failed:
+                    continue
+                # a decision taken by a local function on the collection value
+                for key, val in p.order:
+                    x = w.exprs.get(key)
+                    if key[0] == "site":
+                        evs = [e for e in p.events if e[3] == key[1]]
+                        if evs and any(mentions_coll(a) for a in evs[0][2]):
+                            opaque = True
+                    elif x is not None and expr_mentions(x, lambda y: y[0] == "call" and y[1] is not None and y[1].get("local") and y[1].get("key") != roles.parsed_evaluate and any(mentions_coll(a) for a in y[2])):
+                        opaque = True
+                if adaptor_bi in p.blocks:
+                    evs = [e for e in p.events if e[3] == adaptor_bi]
+                    recv = evs[0][2][0] if evs and evs[0][2] else None
+                    if recv is None:
+                        outs.add("ITER(?)")
+                        continue
+                    from_payload = expr_mentions(recv, lambda x: x[0] == "downcast" and x[2] == "Array" and mentions_coll(x[1]))
+                    empty = (expr_mentions(recv, lambda x: x[0] == "call" and x[1] and EMPTY_SRC.search(x[1]["path"]) is not None)
+                             or expr_mentions(recv, lambda x: x[0] == "agg" and x[1].get("agg") == "Array" and not x[2])) and not from_payload and not mentions_coll(recv)
+                    outs.add("ITER(elements)" if from_payload else ("ITER(empty)" if empty else "ITER(?)"))
+                elif p.truncated:
+                    outs.add("?")
+                elif _is_err_result(p.result):
+                    outs.add("ERR")
+                else:
+                    outs.add("OK(%s)" % show_expr(p.result)[:60] if p.result is not None else "?")
+            res[(ev, v)] = (outs, opaque)
     return res
 
 
@@ -190,12 +248,215 @@ def empty_shortcuts(b, roles, cs, name, init_sites):
     return out
 
 
+class _Walker(pathsum.Walker):
+    """Path walker that also remembers the expression of its boolean atoms (the shared walker records it for variant
+    atoms only)."""
+
+    def classify(self, e, t):
+        out = pathsum.Walker.classify(self, e, t)
+        x = strip_refs(e)
+        while x[0] == "unop" and x[1] == "Not":
+            x = strip_refs(x[2])
+        if x[0] == "cast" and strip_refs(x[2])[0] in ("binop", "call", "const"):
+            x = strip_refs(x[2])
+        for (tg, key, val) in out:
+            if key is not None and key[0] in ("expr", "pure", "site") and key not in self.exprs:
+                self.exprs[key] = x
+        return out
+
+
+class PerElement:
+    """The per-element code of an operator, however it is spelled: a closure handed to an iterator adaptor, or the
+    body of a loop over the collection.  `paths()` are the path summaries of ONE element's processing:
+    closure → every path of the closure; loop → every path from the loop header to the back edge (truncated) or out."""
+
+    def __init__(self, u, abi, aterm, code):
+        self.u, self.abi, self.aterm, self.code = u, abi, aterm, code
+        self.loop = code.kind != "closure"
+        apath = callee_path(aterm) or ""
+        self.adaptor = "loop" if self.loop else apath.rsplit("::", 1)[-1]
+        self.apath = apath
+        # closure parameters: (accumulator, element) for the folds, (element) for the others
+        self.acc_param, self.elem_param = (2, 3) if self.adaptor in ("fold", "try_fold", "rfold", "try_rfold") else (None, 2)
+        self.header = None
+        if self.loop:
+            from . import panic as PN
+            for (h, blocks, srcs) in PN.loops_of(code):
+                if abi in blocks and (self.header is None or len(blocks) < self._n):
+                    self.header, self._n = h, len(blocks)
+        self._w = None
+
+    def walker(self):
+        if self._w is None:
+            self._w = _Walker(self.code, start=(self.header if self.loop else 0), max_paths=1500)
+        return self._w
+
+    def readable(self):
+        w = self.walker()
+        if w.overflow or not w.paths:
+            return False
+        if not self.loop and any(p.truncated for p in w.paths):
+            return False          # a loop inside the per-element closure
+        return True
+
+    def is_elem(self, e):
+        e = strip_refs(e)
+        if not self.loop:
+            return e == ("arg", self.elem_param) or e == ("carg", self.code.key, self.elem_param)
+        x = strip_payload(e)
+        return x[0] == "call" and x[1] is not None and x[1]["path"].endswith("::next") and x[3] == self.abi
+
+    def is_acc(self, e):
+        e = strip_payload(e)
+        return self.acc_param is not None and (e == ("arg", self.acc_param) or e == ("carg", self.code.key, self.acc_param))
+
+    def exhausted(self, w, p):
+        """loop form: the path on which the iterator says there is no further element"""
+        if not self.loop:
+            return False
+        for key, val in p.order:
+            if key[0] == "variant" and val == "None":
+                x = strip_refs(w.exprs.get(key) or ("?",))
+                if x[0] == "call" and x[1] is not None and x[1]["path"].endswith("::next") and x[3] == self.abi:
+                    return True
+        return False
+
+
+def _err_like(r):
+    """Is the per-element result an error outcome: Err(..), `?`'s residual, Some(Err(..)), Break(..)"""
+    if r is None:
+        return False
+    x = strip_refs(r)
+    if _is_err_result(x):
+        return True
+    if x[0] == "agg" and x[1].get("variant") in ("Some", "Break", "Continue") and x[2]:
+        return x[1].get("variant") == "Break" or _err_like(x[2][0])
+    return False
+
+
+def truth_facts(facts, w, p, tkeys, is_pred):
+    """What the path knows about the truthiness of the predicate's value: ([(polarity)], unknown atoms).
+    A fact is an atom `truthy(v) = b` where truthy is the shared truthiness function (or a forwarder of it) and v is
+    the value of the per-element evaluation of the expression — read from a call-site atom, or from the payload of an
+    Option/Result combinator chain brought to case normal form (`evaluate(..).map(|v| truthy(&v))` then `Ok(true)`)."""
+    known, unknown = [], []
+
+    def truthy_call(x):
+        x = strip_refs(x)
+        return x[0] == "call" and x[1] is not None and x[1].get("key") in tkeys and x[2] and is_pred(x[2][0])
+
+    for key, val in p.order:
+        if key[0] == "variant":
+            continue              # Ok/Err, Some/None of the evaluation, of the accumulator, of the iterator: not a keep/drop decision by itself
+        if key[0] == "site":
+            evs = [e for e in p.events if e[3] == key[1]]
+            if evs and truthy_call(("call", evs[0][1], evs[0][2], evs[0][3])):
+                known.append(bool(val))
+            else:
+                unknown.append(key)
+            continue
+        x = w.exprs.get(key)
+        done = False
+        if x is not None:
+            x = strip_refs(x)
+            if truthy_call(x):
+                known.append(bool(val)); done = True
+            elif x[0] == "field" and x[2] == 0 and isinstance(x[1], tuple) and x[1][0] == "downcast" and x[1][2] in ("Ok", "Some", "Continue"):
+                cs_ = optnorm.cases_expr(facts, x[1][1])
+                vals = []
+                for conds, v in cs_ or []:
+                    v = strip_refs(v)
+                    if v[0] == "agg" and v[1].get("variant") in ("Ok", "Some", "Continue") and v[2]:
+                        vals.append(strip_refs(v[2][0]))
+                neg = False
+                if vals and all(v[0] == "unop" and v[1] == "Not" for v in vals):      # `.map(|v| !truthy(&v))`
+                    neg, vals = True, [strip_refs(v[2]) for v in vals]
+                if vals and all(truthy_call(v) for v in vals):
+                    known.append(bool(val) != neg); done = True
+        if not done:
+            unknown.append(key)
+    return known, unknown
+
+
+def filter_outcomes(facts, pe):
+    """[(outcome, kept values, path)] per path of one element's processing:
+       KEEP  the element (a value) is added to the result — pushed onto the accumulated vector (fold / loop / for_each),
+             returned as Some(..) (filter_map), returned as true (filter)
+       DROP  the path goes on to the next element without adding anything
+       ERROR the path ends the operator with an error          END  loop form: no further element
+       UNREAD anything else"""
+    w = pe.walker()
+    out = []
+    for p in w.paths:
+        if pe.exhausted(w, p):
+            out.append(("END", [], p))
+            continue
+        pushes = [e for e in p.events if e[1] is not None and re.search(r"^std::vec::Vec::<T, A>::push$|VecDeque::<T, A>::push_back$", e[1]["path"])]
+        kept = [strip_refs(e[2][1]) for e in pushes if len(e[2]) > 1]
+        r = strip_refs(p.result) if p.result is not None else None
+        if pe.loop:
+            if p.truncated:
+                out.append(("KEEP" if kept else "DROP", kept, p))
+            elif _is_err_result(r):
+                out.append(("ERROR", [], p))
+            else:
+                out.append(("UNREAD", [], p))
+            continue
+        if _err_like(r):
+            out.append(("ERROR", [], p))
+        elif pe.adaptor == "filter_map":
+            if r is not None and r[0] == "agg" and r[1].get("variant") == "None":
+                out.append(("DROP", [], p))
+            elif r is not None and r[0] == "agg" and r[1].get("variant") == "Some" and r[2]:
+                x = strip_refs(r[2][0])
+                if x[0] == "agg" and x[1].get("variant") == "Ok" and x[2]:
+                    x = strip_refs(x[2][0])
+                out.append(("KEEP", [x] + kept, p))
+            else:
+                out.append(("UNREAD", [], p))
+        elif pe.adaptor == "filter":
+            v = const_value(r[1]) if (r is not None and r[0] == "const") else None
+            if isinstance(v, bool):
+                out.append(("KEEP" if v else "DROP", ([("arg", pe.elem_param)] if v else []) + kept, p))
+            else:
+                out.append(("UNREAD", [], p))
+        elif pe.adaptor in ("fold", "try_fold", "for_each", "try_for_each"):
+            out.append(("KEEP" if kept else "DROP", kept, p))
+        else:
+            out.append(("UNREAD", [], p))
+    return w, out
+
+
 EXPECT = {"Array": "ITER(elements)", "Null": "ITER(empty)"}
+INLINE_SAFE = [r"^K1\.(collection|siblings)$"]
+
+
+def per_element_code(u, site):
+    """(block in root, terminator, code body, helper chain) of the iteration that runs `site` once per element.
+    When the site sits in a helper function that is called once per element, the iteration is looked up from the
+    helper's call site and the chain names the helpers passed through."""
+    chain = []
+    cur = site
+    for _ in range(4):
+        ad = adaptor_of(u, cur)
+        if ad is not None:
+            return ad + (chain,)
+        owner = cur.body
+        while owner.kind == "closure" and owner.creator():
+            owner = owner.creator()[0]
+        if owner.key == u.root.key or owner.kind != "fn":
+            return None
+        callers = [s for s in u.calls(lambda c, _k=owner.key: c.get("key") == _k) if u.per_element(s)]
+        if len(callers) != 1:
+            return None
+        chain.append(owner.key)
+        cur = callers[0]
+    return None
 
 
 def run(ctx):
     ctx.explanation = __doc__
-    ctx.rule = "instances = 3 operators × (12 collection cases, evaluation sites with provenance, shape facts); non-trivial = variant specialisation, provenance, dominance"
+    ctx.rule = "instances = 3 operators × (12 collection cases on path summaries, evaluation sites with provenance, per-element outcome tables, shape facts); non-trivial = kind-specialised path summaries, provenance, dominance"
     ctx.trusted = ["std adaptor models of rules/prov.py", "C06 for the truthiness table", "C04 for 'no element is parsed'"]
     from . import manifest as _MF
     _MF.same_library_clause(ctx, "K4.number-model")
@@ -210,14 +471,17 @@ def run(ctx):
         matrices = {}
         for name in ("map", "filter", "reduce"):
             b, e = roles.fn_of(name)
-            u = Unit(roles, b.key)
+            # the operator's code = its function, its closures and the helper functions it reaches without going
+            # through the interpreter: an evaluation moved into a helper is still an evaluation of the operator
+            u = Unit(roles, b.key, extended=True)
+            u0 = Unit(roles, b.key)
             ctx.check(e.table.role == "lazy", "K1.lazy", "%s is a lazy operator (%s)" % (name, cfg), "%s is in the %s table" % (name, e.table.role), where=b.where(), fn=b.key)
             colls = find_collection_eval(roles, p, u, 0)
             ctx.check(len(colls) == 1, "K2.collection-once", "%s evaluates its collection operand exactly once (%s)" % (name, cfg), "%d evaluations of operand 0" % len(colls), where=b.where(), fn=b.key, nontrivial=True)
             if len(colls) != 1:
                 continue
             cs, cs2 = colls[0]
-            ctx.check(cs.body.key == b.key and not u.per_element(cs) and cs2.tags == {"DATA"}, "K2.collection-outer", "%s evaluates the collection against the outer data, outside the iteration (%s)" % (name, cfg),
+            ctx.check(not u.per_element(cs) and cs2.tags == {"DATA"}, "K2.collection-outer", "%s evaluates the collection against the outer data, outside the iteration (%s)" % (name, cfg),
                       "collection evaluated with data %s (per-element: %s)" % (sorted(cs2.tags), u.per_element(cs)), where=cs.where(), fn=cs.body.key, nontrivial=True)
             pes = per_element_sites(roles, p, u, 1)
             ctx.check(len(pes) == 1, "K2.expression-site", "%s evaluates the expression at one per-element site (%s)" % (name, cfg), "%d per-element evaluation sites" % len(pes), where=b.where(), fn=b.key, nontrivial=True)
@@ -237,19 +501,33 @@ def run(ctx):
                 inits = find_collection_eval(roles, p, u, 2)
                 ctx.check(len(inits) == 1 and inits[0][1].tags == {"DATA"} and not u.per_element(inits[0][0]), "K2.initial-once", "reduce evaluates the initial value once, against the outer data (%s)" % cfg,
                           "%d evaluations of operand 2" % len(inits), where=b.where(), fn=b.key, nontrivial=True)
-            # ---- K3 scoping
+            # ---- K3 scoping (provenance: holds wherever the evaluation sits)
             ctx.check("DATA" not in ps2.tags and ps2.tags, "K3.scope", "%s: per-element data carries no outer-data provenance (%s)" % (name, cfg),
                       "the expression is evaluated against data with provenance %s — outer data is visible inside %s" % (sorted(ps2.tags), name), where=ps.where(), fn=ps.body.key, nontrivial=True,
                       sample={"operator": name, "data_tags": sorted(ps2.tags)})
-            ad = adaptor_of(u, ps)
+            ad = per_element_code(u, ps)
             ctx.need(ad is not None, "%s: iterator consumer of the per-element closure not found" % name)
-            abi, aterm, clos = ad
-            apath = callee_path(aterm) or ""
+            abi, aterm, clos, chain = ad
+            pe = PerElement(u, abi, aterm, clos)
+            apath = pe.apath
+            loop_form = pe.loop
+            # Clauses about what one element's processing does are read on the per-element code.  When the evaluation
+            # sits in a helper function called from it, the code as written is not read (the helper-inlined views are).
+            in_helper = bool(chain)
+
+            def unread_shape(clause, key):
+                ctx.unread(clause, key, "%s's per-element evaluation sits in the helper function %s; the clause is read on the view of the program with the helper at its call site" % (name, ", ".join(chain)), where=ps.where(), fn=clos.key)
+
             darg = strip_refs(ps.body.xtrace(ps.term["args"][1]))
             if name in ("map", "filter"):
-                elem_param = 2 if name == "map" else 3
-                good = is_element(ps.body, darg, clos, elem_param)
-                ctx.check(good, "K3.element-is-data", "%s: the element itself is the data (%s)" % (name, cfg), "per-element data is %s" % show_expr(darg), where=ps.where(), fn=ps.body.key, nontrivial=True)
+                k_ = "%s: the element itself is the data (%s)" % (name, cfg)
+                if in_helper:
+                    unread_shape("K3.element-is-data", k_)
+                else:
+                    ctx.check(pe.is_elem(darg), "K3.element-is-data", k_, "per-element data is %s" % show_expr(darg), where=ps.where(), fn=ps.body.key, nontrivial=True)
+            elif in_helper:
+                for cl, k_ in (("K3.reduce-context", "reduce's context has exactly the keys current and accumulator (%s)" % cfg), ("K3.reduce-fresh", "reduce's context is a map built in place (%s)" % cfg), ("K3.reduce-binding", "current ← element, accumulator ← running value (%s)" % cfg)):
+                    unread_shape(cl, k_)
             else:
                 inserts = [s for s in u.calls_path(r"^serde_json::Map::<.*>::insert$") if s.body.key == clos.key]
                 keys = []
@@ -269,18 +547,31 @@ def run(ctx):
                 ctx.check(bool(fresh), "K3.reduce-fresh", "reduce's context is a map built in place (%s)" % cfg, "reduce evaluates against %s" % show_expr(darg)[:160], where=ps.where(), fn=ps.body.key, nontrivial=True)
                 if len(keys) == 2 and None not in keys:
                     kv = dict(zip(keys, vals))
-                    cur_ok = is_element(clos, kv["current"], clos, 3)
-                    acc_ok = strip_payload(kv["accumulator"]) == ("carg", clos.key, 2) or clos.kind != "closure"
+                    cur_ok = is_element(clos, kv["current"], clos, pe.elem_param)
+                    acc_ok = strip_payload(kv["accumulator"]) == ("carg", clos.key, pe.acc_param) or clos.kind != "closure"
                     ctx.check(cur_ok and acc_ok, "K3.reduce-binding", "current ← element, accumulator ← running value (%s)" % cfg,
                               "current ← %s, accumulator ← %s" % (show_expr(kv["current"]), show_expr(kv["accumulator"])), where=clos.where(), fn=clos.key, nontrivial=True)
-            # ---- K1 matrix
-            m = collection_matrix(ctx, roles, u, cs, abi, name, cfg)
-            matrices[name] = m
-            for (ev, v), got in sorted(m.items()):
-                want = EXPECT.get(v, "ERR")
-                ctx.check(got == want, "K1.collection", "%s: %s(%s) → %s (%s)" % (name, ev, v, want, cfg),
-                          "%s treats a collection that evaluates to %s (%s) as %s; expected %s" % (name, v, ev, got, want), where=b.where(), fn=b.key, nontrivial=True,
-                          sample={"operator": name, "evaluated": ev, "kind": v, "outcome": got} if v in ("Array", "Null", "String") and ev == "New" else None)
+            # ---- K1 matrix: the outcomes of the function's paths with the kind of the evaluated collection fixed
+            if cs.body.key != b.key:
+                ctx.unread("K1.collection", "%s: collection matrix (%s)" % (name, cfg), "%s evaluates its collection inside the helper function %s; the matrix is read on the view of the program with the helper at its call site" % (name, cs.body.key), where=cs.where(), fn=b.key)
+            else:
+                m = collection_matrix2(roles, u, cs, abi)
+                matrices[name] = {}
+                for (ev, v), (outs, opaque) in sorted(m.items()):
+                    want = EXPECT.get(v, "ERR")
+                    key = "%s: %s(%s) → %s (%s)" % (name, ev, v, want, cfg)
+                    allowed = {want, "ERR"}
+                    # a successful return that bypasses the iteration (e.g. an early return on an empty array) is judged by
+                    # K4.result-through-iteration; here it is wrong only for a kind that must be an error
+                    wrong = sorted(o for o in outs if (o not in allowed and o not in ("?", "ITER(?)") and not (o.startswith("OK(") and want != "ERR")) or (o == "ITER(?)" and want == "ERR"))
+                    got = "+".join(sorted(o for o in outs if o != "ERR" and not (o.startswith("OK(") and want != "ERR"))) or ("ERR" if outs else "unreachable")
+                    matrices[name][(ev, v)] = got
+                    if wrong:
+                        ctx.fail("K1.collection", key, "%s treats a collection that evaluates to %s (%s) as %s; expected %s%s" % (name, v, ev, got, want, " — the outcome is decided by a function applied to the collection, not by its kind alone" if opaque else ""), where=b.where(), fn=b.key)
+                    elif "?" in outs or "ITER(?)" in outs or want not in outs:
+                        ctx.unread("K1.collection", key, "%s: outcome for a collection that evaluates to %s (%s) read as %s — not a form the reader can classify" % (name, v, ev, got), where=b.where(), fn=b.key)
+                    else:
+                        ctx.ok("K1.collection", key, nontrivial=True, sample={"operator": name, "evaluated": ev, "kind": v, "outcome": got} if v in ("Array", "Null", "String") and ev == "New" else None)
             # ---- K4 every successful result comes out of the iteration
             shortcuts = empty_shortcuts(b, roles, cs, name, find_collection_eval(roles, p, u, 2) if name == "reduce" else [])
             seen, st = set(), [0]
@@ -302,10 +593,12 @@ def run(ctx):
                         bypass.append(show_expr(c)[:100])
             ctx.check(not bypass, "K4.result-through-iteration", "%s: every path that bypasses the iteration returns an error (%s)" % (name, cfg),
                       "%s can return %s without iterating over the collection" % (name, bypass), where=b.where(), fn=b.key, nontrivial=True)
-            # ---- K4 shape
-            bad_ad = [callee_path(s.term) for s in u.calls_path(REORDER.pattern)]
+            # ---- K4 shape: no adaptor filters / reorders / truncates the elements — other than the consumer of the
+            # per-element code itself, whose keep/drop decisions are read path by path below (filter only)
+            own = (b.key, abi) if (name == "filter" and pe.adaptor in ("filter", "filter_map")) else None
+            scan = list(u0.calls_path(REORDER.pattern)) + [s for s in u.calls_path(REORDER.pattern) if s.body.key in chain]
+            bad_ad = [callee_path(s.term) for s in scan if (s.body.key, s.bi) != own]
             ctx.check(not bad_ad, "K4.no-reorder", "%s uses no filtering/reordering/truncating adaptor (%s)" % (name, cfg), "%s applies %s to the collection or its results" % (name, bad_ad), where=b.where(), fn=b.key, nontrivial=True)
-            loop_form = clos.kind != "closure"
             if loop_form:
                 ctx.notes.append("%s: per-element code is a loop; adaptor-shape clauses (map-shape / fold) are not applicable and were skipped" % name)
             if name == "map" and not loop_form:
@@ -315,34 +608,13 @@ def run(ctx):
                 good = any(c[0] == "call" and c[1] and c[1]["path"] == "std::result::Result::<T, E>::map" and strip_refs(c[2][0])[0] == "call" and strip_refs(c[2][0])[1]["path"].endswith("::collect") for c in cands)
                 ctx.check(good, "K4.map-result", "map returns Value::Array(collect(per-element results)) (%s)" % cfg, "map's result is %s" % show_expr(r)[:200], where=b.where(), fn=b.key, nontrivial=True)
             if name == "filter":
-                pushes = [s for s in u.calls_path(r"^std::vec::Vec::<T, A>::push$") if s.body.key == clos.key]
-                ctx.check(len(pushes) == 1, "K4.filter-push", "filter has one push per element (%s)" % cfg, "%d pushes in the per-element closure" % len(pushes), where=clos.where(), fn=clos.key)
-                for s in pushes:
-                    val = strip_refs(s.body.xtrace(s.term["args"][1]))
-                    ctx.check(is_element(s.body, val, clos, 3), "K4.filter-element", "filter pushes the element itself (%s)" % cfg, "filter pushes %s" % show_expr(val), where=s.where(), fn=clos.key, nontrivial=True)
-                    # under the truthy edge
-                    ok = False
-                    for sb in clos.reachable():
-                        tt = clos.blocks[sb]["term"]
-                        if tt["k"] != "SwitchInt":
-                            continue
-                        e = strip_refs(clos.trace(tt["discr"]))
-                        if e[0] == "call" and e[1] and e[1].get("key") in tkeys:
-                            arg = strip_payload(clos.trace(clos.blocks[e[3]]["term"]["args"][0]))
-                            from_pred = arg[0] == "call" and arg[3] == ps.bi
-                            if edge_dominates(clos, sb, bool_edge(clos, sb, True), s.bi) and from_pred:
-                                ok = True
-                    ctx.check(ok, "K4.filter-truthy", "the push is under the truthy edge of the shared truthiness of the predicate's value (%s)" % cfg,
-                              "the push is not guarded by truthy(predicate value) == true", where=s.where(), fn=clos.key, nontrivial=True)
+                filter_shape(ctx, facts, roles, pe, ps, tkeys, cfg, in_helper, unread_shape)
             if name == "reduce" and not loop_form:
                 ctx.check(re.search(r"Iterator(>)?::(fold|try_fold)$", apath) is not None, "K4.reduce-fold", "reduce is a left fold (%s)" % cfg, "per-element closure handed to %s" % apath, where=b.where(abi), fn=b.key, nontrivial=True)
                 init = strip_refs(b.trace(aterm["args"][1]))
                 seeded = expr_mentions(init, lambda x: x[0] == "call" and x[1] and x[1].get("key") == roles.parsed_evaluate)
                 ctx.check(seeded, "K4.reduce-seed", "the fold is seeded with the evaluated initial value (%s)" % cfg, "fold seed is %s" % show_expr(init)[:120], where=b.where(abi), fn=b.key, nontrivial=True)
-                r = strip_refs(clos.trace(0))
-                cands = [strip_refs(x) for x in r[2]] if r[0] == "phi" else [r]
-                nxt = any(expr_mentions(c, lambda x: x[0] == "call" and x[1] and x[1].get("key") == roles.parsed_evaluate) for c in cands)
-                ctx.check(nxt, "K4.reduce-next", "the closure's result (the evaluated expression) is the next accumulator (%s)" % cfg, "closure returns %s" % show_expr(r)[:120], where=clos.where(), fn=clos.key)
+                reduce_next(ctx, roles, pe, ps, cfg, in_helper, unread_shape)
         # ---- K4: elements are data — no parse of a computed value anywhere below the three operators
         _, s1res = P.analyse(roles)
         for name in ("map", "filter", "reduce"):
@@ -356,3 +628,106 @@ def run(ctx):
         if len(matrices) == 3:
             same = matrices["map"] == matrices["filter"] == matrices["reduce"]
             ctx.check(same, "K1.siblings", "map/filter/reduce treat the collection identically (%s)" % cfg, "the three collection matrices differ", where="", nontrivial=True)
+
+
+def reduce_next(ctx, roles, pe, ps, cfg, in_helper, unread_shape):
+    """K4.reduce-next on the path summaries of the per-element closure: on every path that does not end in an error
+    the closure's result — the next accumulator — is the value of the per-element evaluation of the expression."""
+    clos = pe.code
+    key = "the closure's result (the evaluated expression) is the next accumulator (%s)" % cfg
+    if in_helper:
+        return unread_shape("K4.reduce-next", key)
+    if not pe.readable():
+        return ctx.unread("K4.reduce-next", key, "the per-element closure has loops or too many paths", where=clos.where(), fn=clos.key)
+
+    def from_eval(x):
+        return expr_mentions(x, lambda y: y[0] == "call" and y[1] is not None and y[1].get("key") == roles.parsed_evaluate and y[3] == ps.bi)
+
+    w = pe.walker()
+    bad, opaque, good = [], [], 0
+    for p_ in w.paths:
+        r = p_.result
+        if r is None or (_is_err_result(r) and not from_eval(r)):
+            continue
+        if from_eval(r):
+            good += 1
+        elif expr_mentions(r, lambda y: y[0] == "call" and y[1] is not None and y[1].get("local") and y[1].get("key") != roles.parsed_evaluate):
+            opaque.append(show_expr(r)[:120])
+        else:
+            bad.append(show_expr(r)[:120])
+    if bad:
+        ctx.fail("K4.reduce-next", key, "closure returns %s — not the value of the expression for this element" % bad, where=clos.where(), fn=clos.key)
+    elif opaque or not good:
+        ctx.unread("K4.reduce-next", key, "closure returns %s: produced by a local function the reader does not look into" % (opaque or "nothing readable"), where=clos.where(), fn=clos.key)
+    else:
+        ctx.ok("K4.reduce-next", key)
+
+
+def filter_shape(ctx, facts, roles, pe, ps, tkeys, cfg, in_helper, unread_shape):
+    """K4 for filter on the per-element outcome table (path summaries of one element's processing): the paths that
+    KEEP add exactly one value, that value is the element itself, and they are exactly the paths on which the shared
+    truthiness function says true of the expression's value; the paths that DROP are those on which it says false."""
+    clos = pe.code
+    k_push = "filter keeps the element at most once per element, on some path (%s)" % cfg
+    k_elem = "filter keeps the element itself (%s)" % cfg
+    k_truth = "an element is kept exactly under truthy(predicate's value) of the shared truthiness (%s)" % cfg
+    if in_helper:
+        for cl, k in (("K4.filter-push", k_push), ("K4.filter-element", k_elem), ("K4.filter-truthy", k_truth)):
+            unread_shape(cl, k)
+        return
+    if not pe.readable():
+        for cl, k in (("K4.filter-push", k_push), ("K4.filter-element", k_elem), ("K4.filter-truthy", k_truth)):
+            ctx.unread(cl, k, "filter's per-element code has inner loops or too many paths", where=clos.where(), fn=clos.key)
+        return
+    w, outs = filter_outcomes(facts, pe)
+    keeps = [o for o in outs if o[0] == "KEEP"]
+    drops = [o for o in outs if o[0] == "DROP"]
+    unread = [o for o in outs if o[0] == "UNREAD"]
+    where = clos.where()
+    # one value per KEEP path
+    multi = [len(o[1]) for o in keeps if len(o[1]) != 1]
+    if multi:
+        ctx.fail("K4.filter-push", k_push, "a path of filter's per-element code adds %s values to the result" % multi, where=where, fn=clos.key)
+    elif not keeps and not unread:
+        ctx.fail("K4.filter-push", k_push, "no path of filter's per-element code (%s) adds the element to the result" % pe.adaptor, where=where, fn=clos.key)
+    elif not keeps or unread:
+        ctx.unread("K4.filter-push", k_push, "filter's per-element code (%s) has %d path(s) whose effect on the result the reader cannot classify" % (pe.adaptor, len(unread)), where=where, fn=clos.key)
+    else:
+        ctx.ok("K4.filter-push", k_push, nontrivial=True, sample={"form": pe.adaptor, "paths": {k: len([o for o in outs if o[0] == k]) for k in ("KEEP", "DROP", "ERROR", "END")}})
+    # the value kept
+    notelem = [show_expr(v)[:80] for o in keeps for v in o[1] if not pe.is_elem(v)]
+    if notelem:
+        ctx.fail("K4.filter-element", k_elem, "filter keeps %s instead of the element" % notelem, where=where, fn=clos.key)
+    elif keeps:
+        ctx.ok("K4.filter-element", k_elem, nontrivial=True)
+
+    # kept exactly when truthy
+    def is_pred(x):
+        x = strip_payload(x)
+        while True:
+            if x[0] == "payload":
+                x = strip_payload(x[2])
+            elif x[0] == "call" and x[1] is not None and x[2] and (x[1].get("key") == roles.conv.key or roles.conv.key in {y.get("key") for y in x[1].get("fwd") or []}):
+                x = strip_payload(x[2][0])
+            else:
+                break
+        return x[0] == "call" and x[1] is not None and x[1].get("key") == roles.parsed_evaluate and x[3] == ps.bi and ps.body.key == clos.key
+
+    wrong, undecided = [], []
+    for kind, want in (("KEEP", True), ("DROP", False)):
+        for o in (keeps if want else drops):
+            known, unknown = truth_facts(facts, w, o[2], tkeys, is_pred)
+            if known and all(k == want for k in known):
+                continue
+            if known:
+                wrong.append("%s under truthy(predicate) == %s" % ("keeps the element" if want else "drops the element", str(known[0]).lower()))
+            elif unknown:
+                undecided.append("%s under %s" % (kind, ", ".join(str(k[0]) for k in unknown)))
+            else:
+                wrong.append("%s on a path that does not consult truthy(predicate's value)" % ("keeps the element" if want else "drops the element"))
+    if wrong:
+        ctx.fail("K4.filter-truthy", k_truth, "filter %s" % "; ".join(sorted(set(wrong))), where=where, fn=clos.key)
+    elif undecided or not keeps:
+        ctx.unread("K4.filter-truthy", k_truth, "the keep/drop decision is taken on conditions the reader cannot relate to the truthiness of the predicate: %s" % "; ".join(sorted(set(undecided)) or ["no keeping path read"]), where=where, fn=clos.key)
+    else:
+        ctx.ok("K4.filter-truthy", k_truth, nontrivial=True)
